@@ -83,6 +83,9 @@ func renderFile(x *Exec, f absFile, o renderOpts) (string, []physLine) {
 	for ri, r := range f {
 		n++
 		h := r.Header
+		if x.Choose(2, "layout:quote-heading") == 1 {
+			h = `"` + h + `"` // a heading is a name too: "soup, clear":
+		}
 		h += ":" + layoutTrails[x.Choose(len(layoutTrails), "layout:trail")]
 		emit(h, "heading", ri, -1, n == total)
 		for ii, it := range r.Items {
